@@ -151,13 +151,15 @@ def generate(seed, tier):
         k = g.weighted([("add", 6), ("addN", 2), ("remove", 4), ("remove_graph", 1), ("update", 2), ("commit", 2), ("rollback", 1), ("open", 4), ("len", 2), ("contains", 2), ("contexts", 1), ("query", 2), ("add-bnode", 0.5), ("parse", 1)])
         op = {"uid": uid, "k": k}
         if k == "contexts" and g.chance(0.6):
-            op["t"] = tri()
+            op["t"] = tri() if g.chance(0.5) else pat()  # a triple, or a pattern with wildcards
         if k in ("add", "contains"):
             op["t"], op["g"] = tri(), gi()
         elif k == "addN":
             op["q"] = [tri() + [gi()] for _ in range(g.randint(1, 4))]
         elif k == "remove":
             op["t"], op["g"] = pat(), gi()
+            if cfg["context_aware"] and g.chance(0.15):
+                op["g"] = "all"  # no graph given (ConjunctiveGraph.remove(triple)): the pattern goes from every graph
         elif k == "remove_graph":
             if not cfg["context_aware"]:
                 continue  # a store that is not graph aware has no remove_graph
@@ -489,6 +491,16 @@ def _execute(trace, ctx):
             else:
                 write(op, th, lambda: store.addN([(T(s), T(p), T(o), handle(gi)) for s, p, o, gi in quads]))
             writes_since[0] += 1
+        elif k == "remove" and op["g"] == "all":
+            t = op["t"]
+            ctx.probe("remove-without-graph")
+
+            def th(t=t):
+                for gk_ in list(model):
+                    model[gk_] = {x for x in model[gk_] if not match(t, x)}
+
+            write(op, th, lambda: ConjunctiveGraph(store, identifier=DATASET_DEFAULT_GRAPH_ID).remove((T(t[0]), T(t[1]), T(t[2]))))
+            writes_since[0] += 1
         elif k == "remove":
             t, gk = op["t"], gkey(op["g"])
             if None in t:
@@ -673,15 +685,16 @@ def _execute(trace, ctx):
             if res is not None:
                 ctx.probe("read-answered")
                 ctx.check(res[0] == res[1], "C20.membership", lambda: f"{where}: membership -> {res[0]}, endpoint says {res[1]}", fmt=cfg["format"])
-        elif k == "contexts" and op.get("t") and None not in op["t"]:
+        elif k == "contexts" and op.get("t") and op["t"] != [None, None, None]:
             if not cfg["context_aware"]:
                 continue
             t = op["t"]
-            tk = tuple(skey(x) for x in t)
-            res, err = do_read(lambda: {key(c.identifier if isinstance(c, Graph) else c) for c in store.contexts((T(t[0]), T(t[1]), T(t[2])))}, lambda: {g for g, ts in model.items() if tk in ts and g != DEFK}, where, op)
+            if None in t:
+                ctx.probe("contexts-of-pattern")
+            res, err = do_read(lambda: {key(c.identifier if isinstance(c, Graph) else c) for c in store.contexts((T(t[0]), T(t[1]), T(t[2])))}, lambda: {g for g, ts in model.items() if g != DEFK and any(match(t, x) for x in ts)}, where, op)
             if res is not None:
                 ctx.probe("read-answered")
-                ctx.check(res[0] == res[1], "C20.contexts-of-triple", lambda: f"{where}: contexts({t}) -> {_srt(res[0])}, the triple is in the named graphs {_srt(res[1])}", falsy=any(not T(x) for x in t))
+                ctx.check(res[0] == res[1], "C20.contexts-of-triple", lambda: f"{where}: contexts({t}) -> {_srt(res[0])}, the triple is in the named graphs {_srt(res[1])}", falsy=any(x is not None and not T(x) for x in t))
         elif k == "contexts":
             if not cfg["context_aware"]:
                 continue
